@@ -15,6 +15,19 @@
  *   OPLOG_KILL_AT  k: raise SIGKILL instead of performing the k-th (0-based) W/T/X call, i.e. the process dies
  *                  between the (k-1)-th and the k-th output-file system call
  *   OPLOG_FAIL_AT  k[:errno]: the k-th W/T call fails with errno (default ENOSPC) without touching the file
+ *   OPLOG_LIMIT    n: "file system full" — every pwrite/ftruncate that would make the file longer than it is and longer
+ *                  than n bytes fails with ENOSPC; calls that stay within the bytes already there succeed
+ *   OPLOG_ALLOC_FAIL  k: the k-th (0-based) malloc/calloc/realloc call made by any thread after the output file has
+ *                  been opened returns NULL (errno ENOMEM)
+ *   OPLOG_KILL_AT_UNLINK  1: raise SIGKILL instead of performing unlink()/unlinkat()/remove() of OPLOG_PATH — the
+ *                  last kill point of a failing run (all output calls done, cleanup not yet)
+ *
+ * Further log lines (no operations; a failing run's log shows where it failed and that it cleaned up):
+ *                      F <k> <errno> W <offset> <length>     the k-th output call, a pwrite, was made to fail
+ *                      F <k> <errno> T <length>              … an ftruncate
+ *                      M <k>                                 the k-th allocation after the open was made to fail
+ *                      U                                     unlink()/unlinkat()/remove() of OPLOG_PATH succeeded
+ *                      A <n>                                 (at exit) allocations counted after the open
  *
  * Only descriptors obtained from open()/open64()/openat() of OPLOG_PATH, and their dup()s, are watched.
  */
@@ -31,6 +44,9 @@
 #include <sys/uio.h>
 #include <unistd.h>
 
+extern void *__libc_malloc(size_t);
+static int alloc_armed;
+static long alloc_count;
 #define MAXFD 1024
 static unsigned char watched[MAXFD];
 static long opno;
@@ -95,13 +111,30 @@ static void note_open(int fd, int flags)
 	watched[fd] = 1;
 	n = snprintf(buf, sizeof(buf), "O %x\n", (unsigned)flags);
 	logline(buf, n);
+	if (getenv("OPLOG_ALLOC_FAIL") != NULL || getenv("OPLOG_ALLOC_COUNT") != NULL)
+		alloc_armed = 1;
 }
 
-/* returns 0: perform the call; 1: fail it (errno set) */
-static int before_op(void)
+#include <sys/stat.h>
+
+static void log_fail(long k, int err, int is_w, long long a, long long b)
+{
+	char buf[96];
+	int n;
+	if (is_w)
+		n = snprintf(buf, sizeof(buf), "F %ld %d W %lld %lld\n", k, err, a, b);
+	else
+		n = snprintf(buf, sizeof(buf), "F %ld %d T %lld\n", k, err, a);
+	logline(buf, n);
+}
+
+/* returns 0: perform the call; 1: fail it (errno set).  is_w: pwrite(off = a, len = b), else ftruncate(len = a);
+   is_w < 0: a foreign call (never failed by OPLOG_LIMIT, not described in the F line) */
+static int before_op2(int fd, int is_w, long long a, long long b)
 {
 	const char *k = getenv("OPLOG_KILL_AT");
 	const char *f = getenv("OPLOG_FAIL_AT");
+	const char *l = getenv("OPLOG_LIMIT");
 	long me = opno++;
 
 	if (k != NULL && atol(k) == me) {
@@ -110,35 +143,135 @@ static int before_op(void)
 	}
 	if (f != NULL && atol(f) == me) {
 		const char *c = strchr(f, ':');
-		errno = c ? atoi(c + 1) : ENOSPC;
+		int e = c ? atoi(c + 1) : ENOSPC;
+		log_fail(me, e, is_w > 0, a, b);
+		errno = e;
+		return 1;
+	}
+	if (l != NULL && is_w >= 0) {
+		long long end = is_w ? a + b : a;
+		struct stat sb;
+		if ((is_w == 0 || b > 0) && end > atoll(l) && fstat(fd, &sb) == 0 && end > (long long)sb.st_size) {
+			log_fail(me, ENOSPC, is_w, a, b);
+			errno = ENOSPC;
+			return 1;
+		}
+	}
+	return 0;
+}
+
+static int before_op(void)
+{
+	return before_op2(-1, -1, 0, 0);
+}
+
+/* ---- allocation faults (armed by the open of the output file) ---- */
+extern void *__libc_malloc(size_t);
+extern void *__libc_calloc(size_t, size_t);
+extern void *__libc_realloc(void *, size_t);
+
+static int alloc_fails(void)
+{
+	const char *a;
+	long me;
+	if (!alloc_armed)
+		return 0;
+	me = __atomic_fetch_add(&alloc_count, 1, __ATOMIC_SEQ_CST);
+	a = getenv("OPLOG_ALLOC_FAIL");
+	if (a != NULL && atol(a) == me) {
+		char buf[48];
+		int n = snprintf(buf, sizeof(buf), "M %ld\n", me);
+		logline(buf, n);
+		errno = ENOMEM;
 		return 1;
 	}
 	return 0;
 }
 
+void *malloc(size_t n) { return alloc_fails() ? NULL : __libc_malloc(n); }
+void *calloc(size_t a, size_t b) { return alloc_fails() ? NULL : __libc_calloc(a, b); }
+void *realloc(void *p, size_t n) { return alloc_fails() ? NULL : __libc_realloc(p, n); }
+
+__attribute__((destructor)) static void oplog_fini(void)
+{
+	if (alloc_armed && getenv("OPLOG_ALLOC_COUNT") != NULL) {
+		char buf[48];
+		int n = snprintf(buf, sizeof(buf), "A %ld\n", alloc_count);
+		logline(buf, n);
+	}
+}
+
+/* ---- the cleanup of a failing run ---- */
+static int before_unlink(const char *path)
+{
+	if (!is_target(path))
+		return 0;
+	if (getenv("OPLOG_KILL_AT_UNLINK") != NULL) {
+		raise(SIGKILL);
+		_exit(137);
+	}
+	return 1;
+}
+
+int unlink(const char *path)
+{
+	static int (*real)(const char *);
+	int t = before_unlink(path), r;
+	if (!real)
+		real = dlsym(RTLD_NEXT, "unlink");
+	r = real(path);
+	if (t && r == 0)
+		logline("U\n", 2);
+	return r;
+}
+
+int unlinkat(int dirfd, const char *path, int flags)
+{
+	static int (*real)(int, const char *, int);
+	int t = before_unlink(path), r;
+	if (!real)
+		real = dlsym(RTLD_NEXT, "unlinkat");
+	r = real(dirfd, path, flags);
+	if (t && r == 0)
+		logline("U\n", 2);
+	return r;
+}
+
+int remove(const char *path)
+{
+	static int (*real)(const char *);
+	int t = before_unlink(path), r;
+	if (!real)
+		real = dlsym(RTLD_NEXT, "remove");
+	r = real(path);
+	if (t && r == 0)
+		logline("U\n", 2);
+	return r;
+}
+
 static void log_write(off64_t off, const void *data, size_t len)
 {
+	/* one write() per line: lines of other threads (M: a failed allocation) must not end up inside it */
 	static const char hx[] = "0123456789abcdef";
 	size_t i, n;
 	char head[64];
 	char *buf;
 	n = snprintf(head, sizeof(head), "W %lld %zu ", (long long)off, len);
-	logline(head, n);
-	if (len == 0) {
-		logline("-\n", 2);
-		return;
-	}
-	buf = malloc(2 * len + 1);
+	buf = __libc_malloc(n + 2 * len + 2);
 	if (buf == NULL) {
+		logline(head, n);
 		logline("?\n", 2);
 		return;
 	}
+	memcpy(buf, head, n);
+	if (len == 0)
+		buf[n++] = '-';
 	for (i = 0; i < len; ++i) {
-		buf[2 * i] = hx[((const unsigned char *)data)[i] >> 4];
-		buf[2 * i + 1] = hx[((const unsigned char *)data)[i] & 15];
+		buf[n++] = hx[((const unsigned char *)data)[i] >> 4];
+		buf[n++] = hx[((const unsigned char *)data)[i] & 15];
 	}
-	buf[2 * len] = '\n';
-	logline(buf, 2 * len + 1);
+	buf[n++] = '\n';
+	logline(buf, n);
 	free(buf);
 }
 
@@ -208,7 +341,7 @@ ssize_t pwrite(int fd, const void *buf, size_t n, off_t off)
 	RESOLVE(pwrite);
 	if (!is_watched(fd))
 		return real_pwrite(fd, buf, n, off);
-	if (before_op())
+	if (before_op2(fd, 1, (long long)off, (long long)n))
 		return -1;
 	r = real_pwrite(fd, buf, n, off);
 	if (r >= 0)
@@ -222,7 +355,7 @@ ssize_t pwrite64(int fd, const void *buf, size_t n, off64_t off)
 	RESOLVE(pwrite64);
 	if (!is_watched(fd))
 		return real_pwrite64(fd, buf, n, off);
-	if (before_op())
+	if (before_op2(fd, 1, (long long)off, (long long)n))
 		return -1;
 	r = real_pwrite64(fd, buf, n, off);
 	if (r >= 0)
@@ -236,7 +369,7 @@ int ftruncate(int fd, off_t len)
 	RESOLVE(ftruncate);
 	if (!is_watched(fd))
 		return real_ftruncate(fd, len);
-	if (before_op())
+	if (before_op2(fd, 0, (long long)len, 0))
 		return -1;
 	r = real_ftruncate(fd, len);
 	if (r == 0) {
@@ -253,7 +386,7 @@ int ftruncate64(int fd, off64_t len)
 	RESOLVE(ftruncate64);
 	if (!is_watched(fd))
 		return real_ftruncate64(fd, len);
-	if (before_op())
+	if (before_op2(fd, 0, (long long)len, 0))
 		return -1;
 	r = real_ftruncate64(fd, len);
 	if (r == 0) {
